@@ -55,7 +55,12 @@ func makeIdentities(x *X, n int) []identity {
 		a := fmt.Sprintf("%d.%d.%d.%d", 1+c.Intn(223, "ip-a"), c.Intn(256, "ip-b"), c.Intn(256, "ip-c"), 1+c.Intn(254, "ip-d"))
 		a6 := fmt.Sprintf("2001:db8:%x::%x", c.Intn(65536, "ip6-a"), 1+c.Intn(65535, "ip6-b"))
 		var id identity
-		switch c.Intn(10, "idkind") {
+		switch c.Intn(11, "idkind") {
+		case 10:
+			// a list whose first element is empty: whatever client that names, it is the same one
+			// every time -- through whichever front proxy (peer) the request came
+			j := []string{", 10.0.0.1", ",", ",,", ",198.51.100.7, 10.0.0.1", " , 10.9.9.9"}[c.Intn(5, "empty-first")]
+			id = identity{fmt.Sprintf("xff-empty-first:%q#%d", j, i), reqSpec{client: "10.255.0.1", xff: j}}
 		case 8:
 			// a link-local peer: net/http reports it with its zone ("[fe80::1%eth0]:port")
 			z := fmt.Sprintf("fe80::%x:%x%%%s", c.Intn(65536, "ll-a"), 1+c.Intn(65535, "ll-b"), []string{"eth0", "en1", "2", "wlan0.5"}[c.Intn(4, "zone")])
